@@ -4,7 +4,9 @@ package main
 // shapes). Each sweep is one obligation discharged by the engine itself.
 
 import (
+	"go/ast"
 	"go/types"
+	"sort"
 )
 
 type Sweep struct {
@@ -47,4 +49,25 @@ func (p *Program) implementsMethod(fi *FuncInfo, m *types.Func) bool {
 		return types.Implements(types.NewPointer(rt), it)
 	}
 	return false
+}
+
+// mapRangeFuncs: keys of all non-test functions that contain a range over a map
+func (p *Program) mapRangeFuncs() []string {
+	var out []string
+	for k, fi := range p.Funcs {
+		found := false
+		ast.Inspect(fi.Decl.Body, func(n ast.Node) bool {
+			if rs, ok := n.(*ast.RangeStmt); ok {
+				if _, ok := typeOf(fi.Pkg.TypesInfo, rs.X).Underlying().(*types.Map); ok {
+					found = true
+				}
+			}
+			return true
+		})
+		if found {
+			out = append(out, k)
+		}
+	}
+	sort.Strings(out)
+	return out
 }
